@@ -900,10 +900,12 @@ func c17PatternNeutralityWitness(c *Ctx) {
 func init() {
 	register("C17", func(c *Ctx) {
 		steps, genN, genSteps, maxReq := 60, 200, 24, 48
+		setEx, setGen := 4, 2
 		if c.Thorough() {
 			steps, genN, genSteps, maxReq = 1000, 2500, 80, 120
+			setEx, setGen = 80, 12
 		}
-		c.Rule = fmt.Sprintf("Specs: every examples/*_model.conf that has a policy file and string requests (%d pairs, skipped ones in the notes) and %d generated models (ACL, RBAC, RBAC with domains / resource roles / pattern role managers, keyMatch, keyMatch2, regexMatch, ipMatch with unparsable addresses, globMatch with a bad pattern, negated matchers, a matcher without policy fields; allow-override with and without eft column, deny-override, allow-and-deny, priority; 0-6 rules, 0-5 links per role definition). Requests: cross product (sampled down to %d) of, per request field, the values of the same-named policy column, the names in the role links when the field is an argument of g(), the example's test values, and one value occurring nowhere. CORRESPONDENCE: for the base state, for a third (thorough: a twelfth) of the permuted / reloaded states and for the final state, every request is enforced on the real enforcer and, independently, on one single-rule probe enforcer per stored rule (same model text, same links, only rule i; allow-override probe for allow rules, deny-override probe for deny rules, indeterminate rules count as unmatched) and on a rule-free probe (policy-free branch); the extracted Meta.decide_vec folds the measured vector (stored order, lazy evaluation, errors) and must print the real decision and error flag. METAMORPHIC: %d random transformations per example (%d per generated model) of the current state: add rule (+remove), remove rule (+add back), refused duplicates, add link (+remove), remove link (+add back), same rules and links in another order through a fresh enforcer, LoadPolicy from an adapter listing another order, reset; after each one all decisions are compared under the relation the theorems give (allow-override: never revoke / never grant under the empty-policy guard, also for links when the matcher is negation-free; deny-override and allow-and-deny: a deny rule never grants; non-priority effects: permutation / reload / remove+add-back keep error-free decisions; add+remove and duplicates keep every outcome and the exact rule list; AddPolicy appends, RemovePolicy cuts out). Priority and subjectPriority models take part in correspondence, add/remove neutrality and duplicates only (order matters there by design). Non-trivial = a vector with a matched or failing slot; distinct by (spec, effect, vector, blank).", len(c17Examples), genN, maxReq, steps, genSteps)
+		c.Rule = fmt.Sprintf("Specs: every examples/*_model.conf that has a policy file and string requests (%d pairs, skipped ones in the notes) and %d generated models (ACL, RBAC, RBAC with domains / resource roles / pattern role managers, keyMatch, keyMatch2, regexMatch, ipMatch with unparsable addresses, globMatch with a bad pattern, negated matchers, a matcher without policy fields; allow-override with and without eft column, deny-override, allow-and-deny, priority; 0-6 rules, 0-5 links per role definition). Requests: cross product (sampled down to %d) of, per request field, the values of the same-named policy column, the names in the role links when the field is an argument of g(), the example's test values, and one value occurring nowhere. CORRESPONDENCE: for the base state, for a third (thorough: a twelfth) of the permuted / reloaded states and for the final state, every request is enforced on the real enforcer and, independently, on one single-rule probe enforcer per stored rule (same model text, same links, only rule i; allow-override probe for allow rules, deny-override probe for deny rules, indeterminate rules count as unmatched) and on a rule-free probe (policy-free branch); the extracted Meta.decide_vec folds the measured vector (stored order, lazy evaluation, errors) and must print the real decision and error flag. METAMORPHIC: %d random transformations per example (%d per generated model) of the current state: add rule (+remove), remove rule (+add back), refused duplicates, add link (+remove), remove link (+add back), same rules and links in another order through a fresh enforcer, LoadPolicy from an adapter listing another order, reset; after each one all decisions are compared under the relation the theorems give (allow-override: never revoke / never grant under the empty-policy guard, also for links when the matcher is negation-free; deny-override and allow-and-deny: a deny rule never grants; non-priority effects: permutation / reload / remove+add-back keep error-free decisions; add+remove and duplicates keep every outcome and the exact rule list; AddPolicy appends, RemovePolicy cuts out). Priority and subjectPriority models take part in correspondence, add/remove neutrality and duplicates only (order matters there by design). SET LAW (C17_links_only_set / C17_history_independent): %d (%d per generated model) histories per spec without pattern role manager / subjectPriority: an EMPTY real enforcer is driven to a drawn final rule set by Add/Remove calls (single and batch) in a random order, with detours (rules and links outside the final set added and removed again, final links removed and re-added) and transitive detours (for a final link x->z first x->y and y->z, so that x->z is redundant when it is added, the link y->z removed later), all requests enforced at random points in between; at random intermediate points and at the end every decision (errors included) and every GetNamedImplicitRolesForUser / GetImplicitUsersForRole answer is compared with a fresh enforcer loaded with the listed rules (links shuffled), the listing with the expected set, and every second final state goes through the correspondence. Non-trivial = a vector with a matched or failing slot; distinct by (spec, effect, vector, blank).", len(c17Examples), genN, maxReq, steps, genSteps, setEx, setGen)
 		var qualifying, negated []string
 		for _, ex := range c17Examples {
 			s, err := c17LoadExample(ex)
@@ -918,11 +920,13 @@ func init() {
 				negated = append(negated, s.name)
 			}
 			c17RunSpec(c, s, steps, maxReq)
+			c17RunSetLaw(c, s, setEx, maxReq)
 		}
 		for i := 0; i < genN; i++ {
 			s := c17Generate(c.Rng, i)
 			c.Count("gen:" + s.genKind.name)
 			c17RunSpec(c, s, genSteps, maxReq)
+			c17RunSetLaw(c, s, setGen, maxReq)
 		}
 		c17EmptyPolicyWitness(c)
 		c17PatternNeutralityWitness(c)
